@@ -565,7 +565,7 @@ def run(tier):
     def part_ctl():
         sc = both(lambda: bounded_scenarios("ctl", "Scen_Bounded_big.cfg" if big else "Scen_Bounded.cfg", 16 if big else 4,
                                             48 if big else 9, 30000 if big else 8000, 1),
-                  lambda: bounded_scenarios("ctl", "Scen_Bounded_inflight.cfg", 48 if big else 10, 90 if big else 24,
+                  lambda: bounded_scenarios("ctl", "Scen_Bounded_inflight.cfg", 48 if big else 10, 90 if big else 36,
                                             700, 101, name="scen-inflight", inflight=True))
         conform(v, "ctl", sc, tier, BOUNDED_ASPECTS, sig_bounded, nontrivial_bounded)
 
@@ -577,7 +577,7 @@ def run(tier):
         conform(v, "real", sc, tier, REAL_ASPECTS, sig_bounded, nontrivial_bounded)
 
     def part_passes():
-        sc = passes_scenarios(200 if big else 32, 3000 if big else 400, 4001)
+        sc = passes_scenarios(120 if big else 32, 1500 if big else 200, 4001)
         conform(v, "passes", sc, tier, BOUNDED_ASPECTS, sig_bounded, nontrivial_bounded)
 
     def part_bids():
@@ -598,6 +598,8 @@ def run(tier):
     parts = {"mc": None, "ctl": part_ctl, "real": part_real, "passes": part_passes, "bids": part_bids, "calls": part_calls}
     if only:
         vf.log("RESTRICTED RUN: parts %s only" % only)
+        vf.EVIDENCE = os.path.join(vf.OUT, "evidence-restricted")    # never the committed evidence
+        os.makedirs(vf.EVIDENCE, exist_ok=True)
         threads = [t for t in threads if "mc" in only]
     for name, fn in parts.items():
         if fn is None or (only and name not in only):
@@ -625,10 +627,14 @@ def run(tier):
         "(thorough), plus an in-flight batch of 11-epoch behaviours in which the current epoch is only refreshed while one "
         "of its attestation jobs is running, replayed on the real controller + attester + sync "
         "committee messenger/aggregator (virtual time), on the real scheduler (wall clock), and on the real block relay; "
+        "passes: TLC-simulated three-epoch histories of Bounded.tla in which every scheduling pass that may be kept back is "
+        "(start-up, Prepare for epoch, refreshes; up to 3 passes of one epoch under way, 3 head events per slot, ended in any "
+        "order), each replayed on ONE wired instance: the real controller on the REAL advanced scheduler (jobs started with "
+        "its RunJob, virtual time), real attester, a scripted node with a gate on attester duties; "
         "strat/unb: initial states of Unblind.tla (enumerated by TLC, sampled) replayed on the seven `first` strategies and "
         "on unblindProposal, as HISTORIES: up to two earlier TLC-enumerated calls on the same real strategy instance / proposer "
         "before the scenario's own call, every call judged. non-trivial = a refresh withdrew a scheduled attestation and an attestation run failed, or an "
-        "epoch was refreshed while one of its attestation jobs was running, or a head root was set more than an epoch late (ctl), jobs seen in the real table (real), more auctions than the window and one answered more than 32 slots late (bids), three or more providers "
+        "epoch was refreshed while one of its attestation jobs was running, or a head root was set more than an epoch late (ctl), jobs seen in the real table (real), a scheduling pass answered ErrJobAlreadyExists by the real scheduler (passes), more auctions than the window and one answered more than 32 slots late (bids), three or more providers "
         "answering, or every relay failing under a context without deadline (calls); distinct by scenario content")
     return v.finish()
 
